@@ -176,6 +176,104 @@ Proof.
   - apply Sep_splice. apply Sep_line; [repeat constructor|repeat constructor|apply Sep_nil].
 Qed.
 
+(* ------------------------------------------------------------------ the whole text *)
+(** a text made of valid tokens and separators, with the tokens it is made of: (kind, text from the token's first byte, text after its last byte) *)
+Inductive stream : list N -> list (N * list N * list N) -> Prop :=
+| S_end sp : sep sp -> stream sp []
+| S_tok sp k w rest l : sep sp -> valid_token k w rest -> k <> K_HashToken -> stream rest l ->
+    stream (sp ++ w ++ rest) ((k, w ++ rest, rest) :: l).
+
+Definition strip (t : Tk) : N * list N * list N := let '(k, _, a, b) := t in (k, a, b).
+
+Lemma punct_kinds_not_comment : forallb (fun r => negb (is_comment (snd r)) && negb (snd r =? K_EndOfFile)) punct_table = true.
+Proof. vm_compute. reflexivity. Qed.
+
+Lemma valid_kind k w rest : valid_token k w rest -> is_comment k = false /\ (k =? K_EndOfFile) = false.
+Proof.
+  intros V. destruct V as [| | |p pk body rest Hp _|p pk body rest Hp _|c row k rest Hin _ _| |]; try (split; reflexivity).
+  - cbn in Hp. destruct Hp as [Hp|[Hp|[Hp|[Hp|[]]]]]; inversion Hp; subst; split; reflexivity.
+  - cbn in Hp. destruct Hp as [Hp|[Hp|[Hp|[Hp|[Hp|[]]]]]]; inversion Hp; subst; split; reflexivity.
+  - pose proof punct_kinds_not_comment as S. rewrite forallb_forall in S. specialize (S _ Hin). cbn [snd] in S.
+    apply andb_true_iff in S as [S1 S2]. apply negb_true_iff in S1, S2. split; assumption.
+Qed.
+
+(** the loop of Lexer::lex over a stream: from the state (s, wll) in which the next yylex call starts *)
+Lemma drive_stream l : forall s, stream s l -> forall wll acc fuel, (length l < fuel)%nat ->
+  let '(t0, st0) := fetch false (s, wll) in
+  map strip (drive false fuel t0 st0 acc) = map strip (rev acc) ++ l ++ [(K_EndOfFile, [], [])].
+Proof.
+  induction 1 as [sp Hsp|sp k w rest l Hsp V Hk Hst IH]; intros wll acc fuel Hf.
+  - destruct (C05_end_of_file sp wll Hsp) as [fl [wll' E]]. rewrite E.
+    destruct fuel as [|f]; [cbn in Hf; lia|]. cbn [drive].
+    unfold t_sol, t_kind, at_eof, is_comment. cbn [t_kind]. 
+    change (K_EndOfFile =? K_HashToken) with false. rewrite andb_false_r.
+    change ((K_EndOfFile =? K_MultiLineCommentTrivia) || (K_EndOfFile =? K_MultiLineDocumentationCommentTrivia) || (K_EndOfFile =? K_SingleLineCommentTrivia)
+            || (K_EndOfFile =? K_SingleLineDocumentationCommentTrivia) || (K_EndOfFile =? K_Keyword_ExtPSY_omission)) with false.
+    cbn [andb]. change (K_EndOfFile =? K_EndOfFile) with true. cbv iota.
+    cbn [rev]. rewrite map_app. cbn [map strip app]. reflexivity.
+  - destruct (C05_next_token_fetch sp k w rest wll Hsp V) as [fl E]. rewrite E.
+    destruct fuel as [|f]; [cbn in Hf; lia|]. cbn [drive].
+    destruct (valid_kind k w rest V) as [NC NE].
+    assert (NH : (k =? K_HashToken) = false) by (apply N.eqb_neq; exact Hk).
+    unfold t_kind at 1. rewrite NH. rewrite andb_false_r.
+    unfold t_kind at 1. rewrite NC. cbn [andb]. unfold at_eof, t_kind. rewrite NE.
+    specialize (IH false ((k, fl, w ++ rest, rest) :: acc) f ltac:(cbn in Hf; lia)).
+    destruct (fetch false (rest, false)) as [t' st'] eqn:F. eapply eq_trans; [exact IH|].
+    cbn [rev]. rewrite map_app. cbn [map strip]. rewrite <- app_assoc. reflexivity.
+Qed.
+
+Lemma valid_token_nonempty k w rest : valid_token k w rest -> (0 < length w)%nat.
+Proof.
+  intros V. destruct V as [w rest Hw _|w rest Hw _|w rest Hw _|p pk body rest _ _|p pk body rest _ _|c row k rest _ _ _|rest _ _ _|rest]; cbn [length]; try lia.
+  - destruct Hw. cbn. lia.
+  - destruct Hw as [body [suf [-> [Hb _]]]]. rewrite app_length. destruct Hb; cbn; lia.
+  - destruct Hw; cbn [app length]; try (rewrite ?app_length; cbn; lia); lia.
+  - rewrite app_length. cbn. lia.
+  - rewrite app_length. cbn. lia.
+Qed.
+
+Lemma stream_length s l : stream s l -> (length l <= length s)%nat.
+Proof.
+  induction 1 as [|sp k w rest l _ V _ _ IH]; cbn [length]; [lia|].
+  pose proof (valid_token_nonempty k w rest V). rewrite !app_length. lia.
+Qed.
+
+(** THE THEOREM (whole text): the token loop of Lexer::lex, started as the Lexer starts (one new-line before the text, not within a logical line),
+    delivers exactly the tokens the text is made of, in order, each with its kind and its first and last byte, then exactly one end-of-file token
+    with an empty extent at the end of the text.  (lex_all, which the correspondence check runs, maps these suffixes to byte and UTF-16 positions.) *)
+Theorem C05_token_sequence : forall text l, stream (10 :: text) l ->
+  map strip (let '(t0, st0) := fetch false (10 :: text, false) in drive false (2 * length (10 :: text) + 4) t0 st0 []) = l ++ [(K_EndOfFile, [], [])].
+Proof.
+  intros text l H. pose proof (stream_length _ _ H) as L.
+  pose proof (drive_stream l (10 :: text) H false [] (2 * length (10 :: text) + 4) ltac:(lia)) as D.
+  destruct (fetch false (10 :: text, false)) as [t0 st0]. exact D.
+Qed.
+
+Example C05_stream_nonvacuous :
+  stream (10 :: [105; 110; 116; 32; 120; 61; 48; 120; 49; 70; 59; 10])                       (* "int x=0x1F;\n" *)
+         [(K_IdentifierToken, [105; 110; 116; 32; 120; 61; 48; 120; 49; 70; 59; 10], [32; 120; 61; 48; 120; 49; 70; 59; 10]);
+          (K_IdentifierToken, [120; 61; 48; 120; 49; 70; 59; 10], [61; 48; 120; 49; 70; 59; 10]);
+          (K_EqualsToken, [61; 48; 120; 49; 70; 59; 10], [48; 120; 49; 70; 59; 10]);
+          (K_IntegerConstantToken, [48; 120; 49; 70; 59; 10], [59; 10]);
+          (K_SemicolonToken, [59; 10], [10])].
+Proof.
+  apply (S_tok [10] K_IdentifierToken [105; 110; 116] [32; 120; 61; 48; 120; 49; 70; 59; 10]);
+    [apply Sep_ws; [reflexivity|apply Sep_nil]
+    |apply VT_ident; [apply Id; [reflexivity|repeat constructor]|split; [reflexivity|intros H; cbn in H; repeat (destruct H as [H|H]; [discriminate H|]); contradiction]]
+    |discriminate|].
+  apply (S_tok [32] K_IdentifierToken [120] [61; 48; 120; 49; 70; 59; 10]);
+    [apply Sep_ws; [reflexivity|apply Sep_nil]
+    |apply VT_ident; [apply Id; [reflexivity|constructor]|split; [reflexivity|intros H; cbn in H; repeat (destruct H as [H|H]; [discriminate H|]); contradiction]]
+    |discriminate|].
+  apply (S_tok [] K_EqualsToken [61] [48; 120; 49; 70; 59; 10]); [apply Sep_nil|apply (VT_punct 61 []); [vm_compute; tauto|reflexivity|vm_compute; reflexivity]|discriminate|].
+  apply (S_tok [] K_IntegerConstantToken [48; 120; 49; 70] [59; 10]);
+    [apply Sep_nil|apply VT_int; [exists [48; 120; 49; 70], []; split; [reflexivity|split; [apply IB_hex; [reflexivity|repeat constructor]|cbn; tauto]]|split; [reflexivity|discriminate]]|discriminate|].
+  apply (S_tok [] K_SemicolonToken [59] [10]); [apply Sep_nil|apply (VT_punct 59 []); [vm_compute; tauto|reflexivity|vm_compute; reflexivity]|discriminate|].
+  apply S_end. apply Sep_ws; [reflexivity|apply Sep_nil].
+Qed.
+
+
 Print Assumptions C05_next_token.
 Print Assumptions C05_next_token_fetch.
 Print Assumptions C05_end_of_file.
+Print Assumptions C05_token_sequence.
